@@ -2,6 +2,7 @@
    Only statements, each closed by a lemma of Proofs/, with Print Assumptions beneath.
    Model: Model/Mqtt.v (tied to internal/network/mqtt/mqtt.go by the c16 harness on every run);
    standard: Spec/Mqtt311.v (compared byte for byte with paho on every run). *)
+From Coq Require Import Lia.
 From Emitter Require Import Lib.Base Model.Mqtt Spec.Mqtt311 Proofs.ListFacts Proofs.MqttWords Proofs.MqttCodec.
 
 (* Every well-formed packet value whose body fits the 64 KiB buffer (65530 bytes after the header
@@ -55,3 +56,18 @@ Example C16_nonvacuous :
   /\ decode_packet (encode311 (Subscribe (Hdr false 1 false) 9 [([97;47], 1); ([], 0)]) ++ [1;2]) 65536
      = Ok (Subscribe (Hdr false 1 false) 9 [([97;47], 1); ([], 0)], [1;2]).
 Proof. vm_compute. repeat split; reflexivity. Qed.
+
+(* a PUBLISH of any size is either encoded or refused with ErrMessageTooLarge: the encoder never runs
+   past its buffer (F12, repaired: the size check leaves room for the header) *)
+Theorem C16_publish_encode_never_panics : forall h topic mid payload,
+  encode (Publish h topic mid payload) <> Panic.
+Proof.
+  intros h topic mid payload. cbn [encode]. unfold publish_too_large.
+  destruct (bodyRoom <? 2 + len topic + len payload + (if 0 <? h_qos h then 2 else 0)) eqn:E; [discriminate|].
+  unfold finish.
+  assert (len (w_str topic ++ (if 0 <? h_qos h then w_u16 mid else []) ++ payload)
+          = 2 + len topic + len payload + (if 0 <? h_qos h then 2 else 0)) as L.
+  { unfold w_str, w_u16. destruct (0 <? h_qos h); unfold len; rewrite ?app_length; cbn [length]; rewrite ?app_length; cbn [length]; lia. }
+  rewrite L, E. discriminate.
+Qed.
+Print Assumptions C16_publish_encode_never_panics.
